@@ -25,7 +25,7 @@ Definition ↔ Rust:
   only the last blob decides; kept for the witness in `Props.C12`
 * `copyStep`                                   — `commands/copy.rs copy`: needed blobs = reachable and not in the
   destination index; data copied first, then trees, through packers sharing one typed `Indexer.indexed` set
-  (`copyStepUntyped`: the code before the repair c65a201)
+  (`copyStepUntyped`: the code before the repair 17c26ec)
 -/
 namespace Rustic.TreeOps
 
@@ -207,13 +207,13 @@ structure Dest where
 
 /-- one `copy` run for the snapshots with the given root trees; `reach` = the trees the streamer yields.
 Data blobs are copied first, then trees, through packers sharing one `Indexer.indexed` set — keyed by
-(blob type, id) since the repair c65a201, so data ids never make the tree packer skip a tree. -/
+(blob type, id) since the repair 17c26ec, so data ids never make the tree packer skip a tree. -/
 def copyStep (dst : Dest) (roots : List Nat) (reach : List CTree) : Dest :=
   let needTrees := (roots ++ reach.flatMap (·.kids)).filter (fun t => !dst.trees.contains t)
   let needData := (reach.flatMap (·.data)).filter (fun d => !dst.data.contains d)
   { trees := dst.trees ++ needTrees, data := dst.data ++ needData }
 
-/-- the same run with the *untyped* `Indexer.indexed` id set of the code before c65a201: after the data blobs
+/-- the same run with the *untyped* `Indexer.indexed` id set of the code before 17c26ec: after the data blobs
 are copied their ids are in the set and the tree packer skips every tree with such an id -/
 def copyStepUntyped (dst : Dest) (roots : List Nat) (reach : List CTree) : Dest :=
   let needTrees := (roots ++ reach.flatMap (·.kids)).filter (fun t => !dst.trees.contains t)
